@@ -434,7 +434,7 @@ def succs_all(t):
     return succs(t)
 
 
-def effect_canon(f):
+def effect_canon(f, cells=False):
     """configuration-independent list of a body's effects: stores (to memory / named variables), effectful calls,
     live branches and the returned value, with temporaries inlined (Sym) and assertion plumbing removed"""
     sy = Sym(f)
@@ -479,9 +479,11 @@ def effect_canon(f):
                 continue
             lhs = s["lhs"]
             named = bool(f.locals[lhs["l"]]["name"]) and lhs["l"] > f.argc
+            if cells and not lhs["p"] and lhs["l"] in sy.cells and lhs["l"] > f.argc:
+                named = True   # the initial value of a mutably borrowed temporary is part of what the body hands out
             if lhs["p"] or named or lhs["l"] == 0:
                 try:
-                    lines.append("STORE %s = %s" % (canon(sy.place(lhs)) if lhs["p"] else "local:%s" % (f.locals[lhs["l"]]["name"] or "ret"), canon(sy.rvalue(s["rv"]))))
+                    lines.append("STORE %s = %s" % (canon(sy.place(lhs)) if lhs["p"] else ("local:%s" % (f.locals[lhs["l"]]["name"] or "ret") if (f.locals[lhs["l"]]["name"] or lhs["l"] == 0) else "local:_%d" % lhs["l"]), canon(sy.rvalue(s["rv"]))))
                 except RecursionError:
                     lines.append("STORE ?")
         t = b["term"]
